@@ -787,3 +787,27 @@ func init() {
 			Old: "\t\t\t\tb2, err := appender.AppendText(b[len(b):])\n\t\t\t\treturn append(b, b2...), err\n", New: "\t\t\t\tb2, err := appender.AppendText(b[len(b):])\n\t\t\t\tif len(b) == 0 {\n\t\t\t\t\treturn b2, err\n\t\t\t\t}\n\t\t\t\treturn append(b, b2...), err\n", Rule: "APPENDER-1"},
 	)
 }
+
+func init() {
+	addMutants(
+		// ---- round-n strengthening
+		Mutant{ID: "impl1-unexported-field-direct-implements", Props: []string{"C17", "C15"}, File: "fields.go", Func: "makeStructFields",
+			Old: "if implementsAny(tf, allMethodTypes...) ||\n", New: "if slices.ContainsFunc(allMethodTypes, tf.Implements) ||\n", Rule: "IMPL-1"},
+		Mutant{ID: "setnum1-uint-single-digit-from-raw-byte", Props: []string{"C10"}, File: "arshal_default.go", Func: "makeUintArshaler",
+			Old: "\t\t\tva.SetUint(n)\n\t\t\treturn nil\n\t\t}\n", New: "\t\t\tif len(val) == 1 {\n\t\t\t\tn = uint64(val[0] - '0')\n\t\t\t\tva.SetUint(uint64(val[0] - '0'))\n\t\t\t\treturn nil\n\t\t\t}\n\t\t\tva.SetUint(n)\n\t\t\treturn nil\n\t\t}\n", Rule: "SETNUM-1"},
+		Mutant{ID: "depth4-atmaxdepth-one-late", Props: []string{"C20", "C02"}, File: "jsontext/state.go", Func: "stateMachine.AtMaxDepth",
+			Old: "return len(m.Stack) == maxNestingDepth", New: "return len(m.Stack) > maxNestingDepth", Rule: "DEPTH-4"},
+		Mutant{ID: "delim1-readtoken-check-only-after-delimiter", Props: []string{"C01", "C05"}, File: "jsontext/decode.go", Func: "decoderState.ReadToken",
+			Old: "\t\t\t\t}\n\t\t\t}\n\t\t}\n\t\tnext = Kind(d.buf[pos]).normalize()\n\t\tif d.Tokens.needDelim(next) != delim {\n\t\t\treturn Token{}, d.checkDelim(delim, next)\n\t\t}\n", New: "\t\t\t\t}\n\t\t\t}\n\t\t\tnext = Kind(d.buf[pos]).normalize()\n\t\t\tif d.Tokens.needDelim(next) != delim {\n\t\t\t\treturn Token{}, d.checkDelim(delim, next)\n\t\t\t}\n\t\t}\n\t\tnext = Kind(d.buf[pos]).normalize()\n", Rule: "DELIM-1"},
+		Mutant{ID: "defaults1-indent-default-under-colon-guard", Props: []string{"C06", "C19"}, File: "internal/jsonopts/options.go", Func: "Struct.InitializeMultiline",
+			Old: "\tif !s.Flags.Has(jsonflags.Indent) {\n", New: "\tif !s.Flags.Has(jsonflags.Indent | jsonflags.IndentPrefix) {\n", Rule: "DEFAULTS-1"},
+		Mutant{ID: "cofield1-encode-tests-prefix-only", Props: []string{"C09"}, File: "v1/stream.go", Func: "Encoder.Encode",
+			Old: "if len(enc.indentPrefix)+len(enc.indentValue) > 0 {", New: "if len(enc.indentPrefix) > 0 {", Rule: "COFIELD-1"},
+		Mutant{ID: "negzero1-normalisation-dropped", Props: []string{"C13"}, File: "internal/jsonwire/encode.go", Func: "ReformatNumber",
+			Old: "\tcase fv == 0:\n\t\tfv = 0 // normalize negative zero as just zero\n", New: "", Rule: "NEGZERO-1"},
+		Mutant{ID: "fallback1-tie-against-last", Props: []string{"C15"}, File: "fields.go", Func: "makeStructFields",
+			Old: "len(embeddedFallbacks[0].index) != len(embeddedFallbacks[1].index)", New: "len(embeddedFallbacks[0].index) < len(embeddedFallbacks[len(embeddedFallbacks)-1].index)", Rule: "FALLBACK-1"},
+		Mutant{ID: "verb1-reformatstring-canonical-as-verbatim", Props: []string{"C12"}, File: "internal/jsonwire/encode.go", Func: "ReformatString",
+			Old: "b, _ := AppendUnquote(nil, src[:n])", New: "b := UnquoteMayCopy(src[:n], valFlags.IsCanonical())", Rule: "VERB-1"},
+	)
+}
